@@ -33,8 +33,8 @@ PROVED = ("for EVERY byte string and EVERY finite schedule of GetData(k)/GetInte
           "GetNextCode along the encoder's root-to-leaf bits returns the symbol, GetRepeatOffset reads back every 12-bit offset code")
 PARTIAL = ("the encoder round-trip theorem is about the Lean encoder Spec.encode (own copy of the adaptive tree, MSB-first packing); the "
            "harness's Python / C++ encoders are tied to it by the three-encoder / payload-prefix correspondence, and payloads longer "
-           "than 65214 tokens (where the counters fill) are outside the theorem; BitStreamReader's shift register is tied to the pure bit function by the bits.ops "
-           "correspondence (direct oracle = the property's own description); real heap layout is not modelled: 'stays within the decoder's own memory' is the theorem that every model index is "
+           "than 65214 tokens (where the counters fill) are outside the theorem; the reference decoder shares the symbol decoding (tree walk along the bit stream, tree update, offset code) with the "
+           "implementation model — the tree is proved equal to an independent LZHUF reference in C15; real heap layout is not modelled: 'stays within the decoder's own memory' is the theorem that every model index is "
            "< 4096 / inside the tree tables plus the ASan run; std::vector / FileWriter in VolFile::ExtractFileLzh are trusted")
 TRUSTED = ["harness-side C++ reference decoder and Python encoder (each cross-checked against the Lean Spec by the correspondence run)"]
 ASSUMPTIONS = ["input length < 2^61 bytes (BitStreamReader refuses larger buffers)"]
